@@ -34,6 +34,38 @@ let build_graph ops_s =
   let (g, _) = run_ops empty_dag (!parse_ops_hook ops_s) in
   match build g with BOk (gg, _, _) -> gg | _ -> failwith "build failed in runtime case"
 
+(* Modular correspondence: FG_GRAPH_OVERRIDE names a file of lines "<case id> <edges>"; for those
+   cases the model runs on the edge list the implementation built (Builder.with_edges) instead of
+   the edge list of the model's own build(). *)
+let overrides : (string, string) Hashtbl.t = Hashtbl.create 64
+let () =
+  match Sys.getenv_opt "FG_GRAPH_OVERRIDE" with
+  | None -> ()
+  | Some f ->
+    let ic = open_in f in
+    (try while true do
+        let l = input_line ic in
+        match String.index_opt l ' ' with
+        | Some i -> Hashtbl.replace overrides (String.sub l 0 i) (String.sub l (i + 1) (String.length l - i - 1))
+        | None -> if l <> "" then Hashtbl.replace overrides l "-"
+      done with End_of_file -> close_in ic)
+
+let parse_edge tok =
+  let n = String.length tok in
+  let k = match tok.[n - 1] with 'L' -> Logic | 'C' -> Contains | 'D' -> Data | _ -> failwith ("bad edge " ^ tok) in
+  match String.split_on_char '-' (String.sub tok 0 (n - 1)) with
+  | [a; b] -> ((nat_of_int (int_of_string a), nat_of_int (int_of_string b)), k)
+  | _ -> failwith ("bad edge " ^ tok)
+
+(* -> the graph to use, and whether an override was requested but refused *)
+let apply_override id gg =
+  match Hashtbl.find_opt overrides id with
+  | None -> (gg, false)
+  | Some es_s ->
+    (match with_edges gg (List.map parse_edge (toks es_s)) with
+     | Some gg' -> (gg', false)
+     | None -> (gg, true))
+
 let parse_cfg gg tokens =
   let api = match kv tokens "api" "foreach" with
     | "fold" -> AFold | "tryfold" -> ATryFold | "foreach" -> AForEach | "tryforeach" -> ATryForEach
@@ -134,6 +166,8 @@ let str_edges es =
 
 let build_graph id ops_s =
   let gg = build_graph ops_s in
+  let (gg, refused) = apply_override id gg in
+  if refused then Printf.printf "OBS %s GX override-refused\n" id;
   Printf.printf "OBS %s G %s\n" id (str_edges gg.fg_edges); gg
 
 let handle kind id _hd rest =
